@@ -609,3 +609,6 @@ def run(chk):
     chk.guard("O1.3", "<runners>", propagation_to_run, chk, found)
     chk.guard("O1.5", META, meta_chain, chk)
     chk.guard("O1.9", "<runners>", thread_affinity, chk, found)
+    from . import c02
+
+    chk.guard("O1.10", META, c02.mapping_cleared, chk, "O1.10")
